@@ -9,7 +9,7 @@
    cell st j q = the (offset, length) range of that element, is_cell = "same buffer and same range"
    (the sharing relation of the abstract list-of-arrays model: two list entries are the same array). *)
 From Coq Require Import ZArith List Bool Arith Lia.
-From NV Require Import C15.Model C15.ListLemmas C15.Invariant C15.Steps C15.Steps2 C15.Lemmas C15.Lemmas2 C15.Simulation.
+From NV Require Import C15.Model C15.ListLemmas C15.Invariant C15.Steps C15.Steps2 C15.Lemmas C15.Lemmas2 C15.Simulation C15.Links C15.Tractogram.
 Import ListNotations.
 
 (* offsets/lengths inside the written prefix <= capacity, every buffer carries one ascending chain
@@ -222,6 +222,57 @@ Theorem C15_simulation : forall st o a' r, reachable st -> no_pending st o ->
 Proof. exact simulation. Qed.
 Print Assumptions C15_simulation.
 
+(* ---- the sharing relation of the "lists with sharing" abstraction: R st x q y q' = element q of
+   object x and element q' of object y are the same array.  Assignments and in-place operators are
+   functions of (contents, R) — is_cell in the C15_own_contents_setitem_* / _inplace / _opseq_inplace
+   theorems is R — and leave R alone (C15_links_write); indexing links the new object to its parent
+   position by position and copies are linked to nothing (C15_links_view, C15_links_copy); growth
+   leaves every link between other objects alone, may CUT links of the grown object and never
+   creates one (C15_links_growth): finding S-C15d is exactly "growth cuts the link". *)
+Theorem C15_links_growth : forall st o i, reachable st -> grows o i -> i < length (seqs st) ->
+  let st' := fst (step st o) in
+  (forall x y, x <> i -> y <> i -> x < length (seqs st) -> y < length (seqs st) ->
+     forall q q', R st' x q y q' = R st x q y q') /\
+  (forall y q', y <> i -> y < length (seqs st) -> q' < length (offs (getseq st y)) ->
+     (exists q, R st' i q y q' = true) ->
+     exists q0, q0 < length (offs (getseq st i)) /\ R st i q0 y q' = true).
+Proof. exact grow_links. Qed.
+Print Assumptions C15_links_growth.
+
+Theorem C15_links_view : forall st j ix ps, reachable st -> is_live st j = true ->
+  positions (length (offs (getseq st j))) ix = Ok ps ->
+  let st' := fst (step st (OGetIdx j ix)) in
+  let v := length (seqs st) in
+  (forall x y, x < v -> y < v -> forall q q', R st' x q y q' = R st x q y q') /\
+  (forall m y q', m < length ps -> y < v -> R st' v m y q' = R st j (nth m ps 0) y q').
+Proof. exact view_links. Qed.
+Print Assumptions C15_links_view.
+
+Theorem C15_links_copy : forall st i, reachable st -> is_live st i = true ->
+  let st' := fst (step st (OCopy i)) in
+  let n := length (seqs st) in
+  (forall x y, x < n -> y < n -> forall q q', R st' x q y q' = R st x q y q') /\
+  (forall y q q', y < n -> R st' n q y q' = false).
+Proof. exact copy_links. Qed.
+Print Assumptions C15_links_copy.
+
+Theorem C15_links_write : forall st st', seqs st' = seqs st ->
+  forall x q y q', R st' x q y q' = R st x q y q'.
+Proof. exact write_links. Qed.
+Print Assumptions C15_links_write.
+
+(* shrink_data() called directly (not an operation of `step`): nothing on a view (fix deb32026);
+   on the owner of a buffer that live views share, outside a cached build, it cuts the buffer at the
+   owner's own extent, which covers every view's rows: harmless *)
+Theorem C15_shrink_harmless : forall st i, reachable st -> i < length (seqs st) ->
+  scache (getseq st i) = None ->
+  let st' := shrink st i in
+  wf st' /\ seqs st' = seqs st /\
+  (forall x, x < length (seqs st) -> C st' x = C st x) /\
+  (forall x q y q', R st' x q y q' = R st x q y q').
+Proof. exact shrink_harmless. Qed.
+Print Assumptions C15_shrink_harmless.
+
 (* ---- growing a view, a copy or any derived sequence (append with or without cache_build,
    finalize_append, extend of a list / generator / sequence / itself) never changes any element
    of any other sequence object, nor the object itself *)
@@ -238,6 +289,27 @@ Theorem C15_new_isolated : forall st bytes bpr pre els, reachable st ->
     C (fst (step st (ONew bytes bpr pre els))) j = C st j.
 Proof. exact new_keeps. Qed.
 Print Assumptions C15_new_isolated.
+
+(* ---- Tractogram.extend / `t += other` (tractogram.py): component.extend(other_component) for the
+   streamlines and every data_per_point sequence in turn (textend = that run of OExtendSeq steps).
+   Growing a derived tractogram — a slice t[idx], a copy, a sum, whatever buffers its components
+   share — never alters any sequence object that is not one of its own components, in particular no
+   component of the tractogram it was taken from; and each component receives exactly the elements
+   of the corresponding component of `other` (which may be the tractogram itself). *)
+Theorem C15_tractogram_extend_isolated : forall tu st, reachable st ->
+  forall x, x < length (seqs st) -> (forall p, In p tu -> fst (fst p) <> x) ->
+    getseq (textend st tu) x = getseq st x /\ C (textend st tu) x = C st x.
+Proof. exact textend_isolated. Qed.
+Print Assumptions C15_tractogram_extend_isolated.
+
+Theorem C15_tractogram_extend_own : forall tu st, reachable st ->
+  NoDup (map (fun p => fst (fst p)) tu) ->
+  (forall p, In p tu -> is_live st (fst (fst p)) = true /\ is_live st (snd p) = true) ->
+  (forall p p', In p tu -> In p' tu -> snd p = fst (fst p') -> p = p') ->
+  forall p, In p tu ->
+    C (textend st tu) (fst (fst p)) = spec_extend (C st (fst (fst p))) (C st (snd p)).
+Proof. exact textend_own. Qed.
+Print Assumptions C15_tractogram_extend_own.
 
 (* ---- an in-place operator on A reaches all or none of the cells A shares with B *)
 Theorem C15_inplace_all_or_none : forall st a f dt b, reachable st -> is_live st a = true ->
